@@ -557,7 +557,7 @@ package xpath
 //@   ensures[position@C03] result == box(float(1 + ite(S0, cnt(ref(test), parent(C0), idx(C0) - 1), 0)))
 //@   loop 0 apply cntZero(ref(test), parent(C0))
 //@   loop 0 apply cntStep(ref(test), parent(C0), idx(pos(node)))
-//@   loop 0 invariant[counting@C03] ite(S0, kind(pos(node)) != 2 && !isroot(pos(node)) && parent(pos(node)) == parent(C0) && 1 <= idx(pos(node)) && idx(pos(node)) <= idx(C0) && count == 1 + cnt(ref(test), parent(C0), idx(C0) - 1) - cnt(ref(test), parent(C0), idx(pos(node)) - 1), pos(node) == C0 && count == 1)
+//@   loop 0 invariant[counting@C03] ite(S0, kind(pos(node)) != 2 && !isroot(pos(node)) && parent(pos(node)) == parent(C0) && 1 <= idx(pos(node)) && idx(pos(node)) <= idx(C0) && count == 1 + cnt(ref(test), parent(C0), idx(C0) - 1) - cnt(ref(test), parent(C0), idx(pos(node)) - 1) && 1 <= count && count <= 1 + idx(C0) - idx(pos(node)), pos(node) == C0 && count == 1)
 //@   loop * invariant[cursor@C13] cur(t) == old(cur(t)) && pos(cur(t)) == old(pos(cur(t)))
 //@ func lastFunc$1
 //@   props C15 C13
